@@ -9,6 +9,7 @@ binary64 evaluated by vm_compute):
   p3        : VectUtils.planeParamsFromPoints called directly vs
               Model.plane_params_from_points (incl. which orientation branch)
   number    : CollectionDict.number_items vs Model.number_items
+  evalq     : eval_quadric called directly vs Model.eval_quadric
   join      : SurfaceCollection.join vs Model.join
   spec-fM / spec-fT4 : the Coq Spec (f_M, f_T4) vs the harness's Python
               references mcnpref.surface_value / t4eval.surf_value at points
@@ -46,9 +47,7 @@ THEOREMS = [
     'C02_P_three_points_locus_sense',
     'C02_P_three_points_locus_partial',
     'C02_orient_plane_ok',
-    'C02_sq_positive_g_flipped',
-    'C02_sq_gq_inconsistent',
-    'C02_sq_positive_g_refuted',
+    'C02_sq_gq_consistent',
     'C02_convert_any_axis',
     'C02_C_K_any_axis_locus_sense',
     'C02_inadmissible_cards_raise',
@@ -79,8 +78,7 @@ ASSUMPTIONS = [
     'three-point planes: orientation is proved when no tested quantity lies '
     'in the band 0 < |v| <= 1e-14 (the code\'s epsilon); the band is swept '
     'numerically only',
-    'SQ: sense kept only when G <= 0 (finding sq_positive_g_flipped); X/Y/Z '
-    'cone form: r1, r2 >= 0 (MCNP admissibility; the sheet is then the one '
+    'X/Y/Z cone form: r1, r2 >= 0 (MCNP admissibility; the sheet is then the one '
     'containing both points, apex-coincident points included)',
     'the 5-entry TX/TY/TZ form is not an MCNP card; it is read as B = C',
     'X/Y/Z with three pairs raise NotImplementedError (declared limitation; '
@@ -638,22 +636,10 @@ def sweep_card(rng, mn, prm, n_random=40, n_cross=8, ref=None):
 
 def finding_class(mn, prm, status, detail):
     '''Name of the open finding that this failing card belongs to, or None.'''
-    if mn == 'sq' and status == 'wrong' and len(prm) == 10 and prm[6] > 0.0:
-        # exactly this defect: the card is converted as the SQ with A..G
-        # negated (same locus, senses exchanged); anything else stays a
-        # VIOLATION
-        negated = [-v for v in prm[0:7]] + list(prm[7:10])
-        again, _ = sweep_card(random.Random(0), mn, prm, 40, 8,
-                              ref=('sq', negated))
-        if again == 'ok':
-            return 'sq_positive_g_flipped'
     return None
 
 
-WITNESSES = [
-    ('sq_positive_g_flipped', 'sq',
-     [-1.0, -1.0, -1.0, 0.0, 0.0, 0.0, 1.0, 0.0, 0.0, 0.0]),
-]
+WITNESSES = []      # no open finding class
 
 
 # minimised cases kept from defects, mutation self-tests and branch triggers;
@@ -695,6 +681,10 @@ CORPUS = [
     ('c/x', [1.0, 2.0, 3.0]),
     ('c/z', [1.0, 2.0, 3.0]),
     ('sq', [1.0, 2.0, 3.0, 0.5, -0.25, 0.75, -4.0, 1.0, -2.0, 3.0]),
+    # G > 0: formerly emitted with the senses exchanged (fixed); and its GQ twin
+    ('sq', [-1.0, -1.0, -1.0, 0.0, 0.0, 0.0, 1.0, 0.0, 0.0, 0.0]),
+    ('gq', [-1.0, -1.0, -1.0, 0.0, 0.0, 0.0, 0.0, 0.0, 0.0, 1.0]),
+    ('sq', [1.0, -2.0, 0.5, 0.25, 0.5, -1.0, 3.0, 1.0, -2.0, 0.5]),
     ('gq', [1.0, 2.0, 3.0, 0.5, -0.25, 0.75, -4.0, 1.0, -2.0, -3.0]),
 ]
 
@@ -860,15 +850,6 @@ def _run(res, tier, seed, proofs_ok):
         if status in ('rejected', 'wrong'):
             report_sweep_failure(res, mn, prm, status, detail,
                                  f'witness of {cls}')
-    # the GQ twin of the SQ witness (same polynomial, same MCNP sense) must be
-    # converted correctly: the defect is in the SQ path only
-    twin = [-1.0, -1.0, -1.0, 0.0, 0.0, 0.0, 0.0, 0.0, 0.0, 1.0]
-    status, detail = sweep_card(random.Random(seed + 1), 'gq', twin, 60, 10)
-    res.seen(('witness-twin', 'gq', twin))
-    if status != 'ok':
-        report_sweep_failure(res, 'gq', twin, status, detail,
-                             'GQ twin of the SQ witness')
-
     # ---- 2. cards: ties card / mcnp, and the sweep ----
     cards = [(mn, list(prm), 'corpus', None) for mn, prm in CORPUS]
     for tag in ALL_TAGS:
@@ -1101,6 +1082,32 @@ def _run(res, tier, seed, proofs_ok):
                       'the model', {'input': {'colls': colls},
                                     'observed': str(out),
                                     'theorem_or_correspondence': 'tie:join'},
+                      found_input=False)
+
+    # ---- 4b. eval_quadric directly ----
+    from t4_geom_convert.Kernel.Surface.ConversionSurfaceMCNPToT4 import \
+        eval_quadric
+    eq_cases, eq_meta = [], []
+    for _ in range(60 if quick else 600):
+        quad = [dy(rng, -3, 3) for _ in range(10)]
+        pt = [dy(rng, -4, 4) for _ in range(3)]
+        with traced():
+            val = float(eval_quadric(quad, tuple(pt)))
+        res.seen(('evalq', quad, pt))
+        eq_cases.append(cpair(coq_floats(quad), coq_floats(pt), cfloat(val)))
+        eq_meta.append((quad, pt, val))
+    bad, errs = common.run_case_files('c02_evalq', HEADER, 'evalq_case',
+                                      'check_evalq', eq_cases)
+    res.obligation(f'tie:evalq ({len(eq_cases)} quadrics x points: model '
+                   'eval_quadric = eval_quadric)', not bad and not errs,
+                   f'{len(bad)} disagreements {errs[:1]}')
+    for idx in bad[:5]:
+        res.violation('correspondence',
+                      f'eval_quadric{eq_meta[idx]} differs from the model',
+                      {'input': {'quadric': eq_meta[idx][0],
+                                 'point': eq_meta[idx][1]},
+                       'observed': eq_meta[idx][2],
+                       'theorem_or_correspondence': 'tie:evalq'},
                       found_input=False)
 
     # ---- 5. the Spec against the Python references ----
